@@ -83,6 +83,12 @@ class WriterRef:
                 return "ok"
             return "throw"
         i = int(tok[1:].split(":")[0])
+        if op == "x":
+            # python: the call is in order but the implementation raises: the step is not written; a stream that the call ended implicitly stays ended
+            if i == self.pos + 1 and self.pos < n and self.p[self.pos] == "s" and self.written:
+                self.pos += 1
+                self.written = False
+            return "throw"
         if self.d == "cpp":
             if i != self.pos:
                 return "throw"
@@ -254,6 +260,16 @@ def sequences(pat, role, dialect, k, r, n_random, max_len=None):
     for pre in valid_prefixes:
         for a in alpha:
             seqs.add(pre + (a,))
+    # after an exception the object is still there: a premature close() followed by every action, and (Python writers) an in-order call whose
+    # implementation raises followed by every action
+    short = [pre for pre in valid_prefixes if len(pre) <= len(pat) + 1]
+    for pre in short:
+        for a in alpha:
+            seqs.add(pre + ("c", a))
+        if role == "w" and dialect == "py":
+            for i in range(len(pat)):
+                for a in alpha:
+                    seqs.add(pre + ("x%d:%s" % (i, pat[i]), a))
     for _ in range(n_random):
         seqs.add(tuple(r.choice(alpha) for _ in range(r.randint(1, 2 * len(pat) + 4))))
     return sorted(seqs)
@@ -267,6 +283,8 @@ def expected(pat, role, dialect, k, seq):
         if isinstance(res, str):
             res = (res, None)
         out.append(res)
+        if res[0] == "throw" and (t == "c" or t[0] == "x"):
+            continue      # a rejected close() and a raising implementation leave the object where it was: the sequence goes on
         if res[0] != "ok":
             break
     return out
@@ -298,7 +316,7 @@ def cpp_driver(ns, protos):
             if ch == "s":
                 o.append("      else if (t[0] == 'b' && i == %d) { std::vector<int32_t> v(arg, 1); w.Write%s(v); }\n" % (i, steps[i]))
                 o.append("      else if (t[0] == 'e' && i == %d) { w.End%s(); }\n" % (i, steps[i]))
-        o.append('      else { std::printf("throw:no-such-method\\n"); return; }\n      std::printf("ok\\n");\n    } catch (std::exception const& e) { std::printf("throw\\n"); return; }\n  }\n}\n')
+        o.append('      else { std::printf("throw:no-such-method\\n"); return; }\n      std::printf("ok\\n");\n    } catch (std::exception const& e) { std::printf("throw\\n"); }\n  }\n}\n')
         o.append("static void run_r_%s(std::vector<std::string> const& seq) {\n  R_%s r;\n  for (auto const& t : seq) {\n    try {\n      std::string a = t.substr(1); size_t c = a.find(':'); int i = t == \"c\" ? -1 : std::stoi(a.substr(0, c)); int arg = c == std::string::npos ? 0 : std::stoi(a.substr(c + 1));\n      (void)arg;\n      if (t == \"c\") { r.Close(); std::printf(\"ok\\n\"); }\n" % (name, name))
         for i, ch in enumerate(pat):
             if ch == "v":
@@ -306,7 +324,7 @@ def cpp_driver(ns, protos):
             else:
                 o.append("      else if (t[0] == 'r' && i == %d) { int32_t v; bool b = r.Read%s(v); std::printf(\"ok:%%d\\n\", b ? 1 : 0); }\n" % (i, steps[i]))
                 o.append("      else if (t[0] == 'B' && i == %d) { std::vector<int32_t> v; v.reserve(arg); bool b = r.Read%s(v); std::printf(\"ok:%%d:%%zu\\n\", b ? 1 : 0, v.size()); }\n" % (i, steps[i]))
-        o.append('      else { std::printf("throw:no-such-method\\n"); return; }\n    } catch (std::exception const& e) { std::printf("throw\\n"); return; }\n  }\n}\n')
+        o.append('      else { std::printf("throw:no-such-method\\n"); return; }\n    } catch (std::exception const& e) { std::printf("throw\\n"); }\n  }\n}\n')
     o.append('#include "binary/protocols.h"\n')
     for name, pat, steps in protos:
         if name.startswith("SmBig"):
@@ -442,6 +460,10 @@ def run(ctx):
                         ctx.violation("accepted-out-of-order:%s:%s:%s" % (dialect, "writer" if role == "w" else "reader", "big" if isbig else action_class(pt, seq, j)),
                                       "%s %s %s (k=%s): call #%d `%s` of sequence %s must raise, but returned %s" % (dialect, name, "writer" if role == "w" else "reader", kv, j + 1, seq[j], list(seq), g),
                                       {"protocol": name, "pattern": pt, "sequence": list(seq), "got": got, "expected": exp})
+                        break
+                    if j + 1 < len(exp):
+                        ctx.count("continued-after-exception")
+                        continue
                     break
                 if gk != "ok":
                     ctx.violation("rejected-in-order:%s:%s:%s" % (dialect, "writer" if role == "w" else "reader", "big" if isbig else action_class(pt, seq, j)),
